@@ -214,8 +214,9 @@ Example C02_clean_sound_example :
 Proof. vm_compute. repeat split. Qed.
 
 (* ---- THE WHOLE-BUILD INVARIANT (Build/SettleJob.v), for projects of plain
-   scripts.  Scope: every script asks for its dependencies with redo-ifchange
-   and nothing else (no redo-stamp, redo-ifcreate, redo-always, "|| true"); the
+   scripts.  Scope: every script asks for its dependencies with redo-ifchange,
+   may declare redo-ifcreate on watched names, and does nothing else to the
+   state (no redo-stamp, redo-always, "|| true"); the
    database holds no checksum and no hand-edited generated file is pending; a
    rank on names decreases along every declared and every recorded dependency;
    the names of .do files (WATCHED names) are never asked for as targets.
@@ -262,7 +263,7 @@ Theorem C02_every_command_keeps_the_invariant : forall R, (0 < R)%Z -> forall rk
 Proof. exact build_rec_spec. Qed.
 Print Assumptions C02_every_command_keeps_the_invariant.
 
-(* non-vacuity: T <- {m, s}, m <- s, plain scripts that print their inputs.  The
+(* non-vacuity: T <- {m, s} with redo-ifcreate w, m <- s, scripts that print their inputs.  The
    premises hold before the first build (empty database) and again after the
    source s has been edited; both builds exit 0 and run T.do and m.do *)
 Definition ex_T : name := (84 :: nil)%N.
@@ -283,10 +284,10 @@ Proof.
 Qed.
 
 Example C02_whole_build_example :
-  let mk deps p := {| s_deps := deps; s_ifcreate := nil; s_always := false; s_stamp := false;
-                      s_out := OStdout; s_payload := p; s_cat := true; s_exit := 0%Z; s_tol := false |} in
-  let h := SWrite ex_s (1%N :: nil) :: SWriteDo (ex_T ++ b_do) (mk (ex_m :: ex_s :: nil) 10%N)
-           :: SWriteDo (ex_m ++ b_do) (mk (ex_s :: nil) 20%N) :: nil in
+  let mk deps ifc p := {| s_deps := deps; s_ifcreate := ifc; s_always := false; s_stamp := false;
+                          s_out := OStdout; s_payload := p; s_cat := true; s_exit := 0%Z; s_tol := false |} in
+  let h := SWrite ex_s (1%N :: nil) :: SWriteDo (ex_T ++ b_do) (mk (ex_m :: ex_s :: nil) ((119 :: nil) :: nil)%N 10%N)
+           :: SWriteDo (ex_m ++ b_do) (mk (ex_s :: nil) nil 20%N) :: nil in
   let w_a := fst (last (run_history h (init_world 0)) (init_world 0, None)) in
   let pre := fun w : world =>
     let R := (maxrun (dbs w) + 1)%Z in let w1 := fst (new_run w) in
